@@ -15,7 +15,7 @@ from ..runner import ops_machine_base, replay_ops
 
 ID = "C14"
 LEVEL = "exploration"
-BUDGET = {"quick": 320, "thorough": 4000}
+BUDGET = {"quick": 320, "thorough": 30000}
 SHARDS = {"quick": 8, "thorough": 16}
 STEP_COUNT = {"quick": 8, "thorough": 10}
 SHRINK = {"quick": True, "thorough": True}
